@@ -713,12 +713,13 @@ type srttSample struct {
 func karnOracle(m *Sim, x *Exec, samples []srttSample) {
 	// sender bookkeeping: transmissions per TSN so far, acked set
 	type sstate struct {
-		nsent map[uint32]int
-		acked map[uint32]bool
+		nsent   map[uint32]int
+		acked   map[uint32]bool
+		arrived map[uint32]bool // a copy of the TSN reached the peer (a round trip exists)
 	}
 	var ss [2]sstate
 	for i := range ss {
-		ss[i] = sstate{map[uint32]int{}, map[uint32]bool{}}
+		ss[i] = sstate{map[uint32]int{}, map[uint32]bool{}, map[uint32]bool{}}
 	}
 	justified := map[int][2]bool{} // event index -> per endpoint: a SACK delivered here newly acked a once-sent TSN
 	for i, ev := range x.Events {
@@ -737,6 +738,8 @@ func karnOracle(m *Sim, x *Exec, samples []srttSample) {
 			for _, c := range ev.Pkt.dec.Chunks {
 				var newly []uint32
 				switch c.Typ {
+				case wDATA, wIDATA:
+					ss[ev.From].arrived[c.TSN] = true
 				case wSACK, wSHUTDOWN:
 					for t := range ss[y].nsent {
 						if ss[y].acked[t] {
@@ -759,7 +762,9 @@ func karnOracle(m *Sim, x *Exec, samples []srttSample) {
 				}
 				for _, t := range newly {
 					ss[y].acked[t] = true
-					if ss[y].nsent[t] == 1 {
+					// (a chunk that never arrived - abandoned, skipped by FORWARD-TSN - is covered
+					// by the cumulative ack all the same: it has no round trip to measure)
+					if ss[y].nsent[t] == 1 && ss[y].arrived[t] {
 						j := justified[i]
 						j[y] = true
 						justified[i] = j
@@ -780,7 +785,7 @@ func karnOracle(m *Sim, x *Exec, samples []srttSample) {
 				}
 			}
 			if !ok {
-				m.Failf("karn", "endpoint %d: SRTT changed %v -> %v between wire events %d and %d although no SACK delivered in between newly acknowledged a chunk that was transmitted exactly once", y, samples[k-1].srtt[y], samples[k].srtt[y], samples[k-1].ev, samples[k].ev)
+				m.Failf("karn", "endpoint %d: SRTT changed %v -> %v between wire events %d and %d although no SACK delivered in between newly acknowledged a chunk that was transmitted exactly once and reached the peer", y, samples[k-1].srtt[y], samples[k].srtt[y], samples[k-1].ev, samples[k].ev)
 			}
 		}
 	}
@@ -870,6 +875,7 @@ func c19EndToEnd(j *Job) {
 	cases = append(cases, famZ1(modes[:1], 1)...)
 	cases = append(cases, famZ2(modes[:1], 0)...)
 	cases = append(cases, famKS(modes[:1], 2, true, []time.Duration{0}, 3)...)
+	cases = append(cases, famZ9(modes[:2], 1)...)
 	// two consecutive chunks lost, the retransmission of the first lost again (gap-acked retransmission)
 	for _, mode := range modes {
 		mtu := uint32(100)
@@ -918,6 +924,11 @@ func c19EndToEnd(j *Job) {
 			generalVerdicts(m, x, false)
 			ackDelayOracle(m, x)
 			karnOracle(m, x, samples)
+			// data is retransmitted for as long as the association lives: on a network that has
+			// healed everything written gets through
+			if r.Connected && !r.Drained {
+				m.Failf("rtx.gave-up", "not drained at %v although the network has healed: buffered A=%d B=%d, delivered %s", r.DrainAt, bufAmt(m.As[0]), bufAmt(m.As[1]), deliverySummary(spec, r))
+			}
 			m.Observe("%s", deliverySummary(spec, r))
 		}
 		sc := xferScenario(spec, res)
